@@ -614,6 +614,8 @@ static Janet make_supervisor_event(const char *name, JanetFiber *fiber, int thre
 /* Common init code */
 void janet_ev_init_common(void) {
     janet_q_init(&janet_vm.spawn);
+    janet_q_init(&janet_vm.chan_outbox);
+    janet_vm.chan_lock_depth = 0;
     janet_vm.tq = NULL;
     janet_vm.tq_count = 0;
     janet_vm.tq_capacity = 0;
@@ -630,6 +632,7 @@ void janet_ev_init_common(void) {
 /* Common deinit code */
 void janet_ev_deinit_common(void) {
     janet_q_deinit(&janet_vm.spawn);
+    janet_q_deinit(&janet_vm.chan_outbox);
     janet_free(janet_vm.tq);
     janet_table_deinit(&janet_vm.threaded_abstracts);
     janet_table_deinit(&janet_vm.active_tasks);
@@ -826,11 +829,42 @@ static void janet_chan_init(JanetChannel *chan, int32_t limit, int threaded) {
 static void janet_chan_lock(JanetChannel *chan) {
     if (!janet_chan_is_threaded(chan)) return;
     janet_os_mutex_lock((JanetOSMutex *) &chan->lock);
+    janet_vm.chan_lock_depth++;
+}
+
+/* A hand-off to a fiber parked in another thread is a message on that thread's self-pipe. Writing it
+ * can block when the pipe is full, and the other thread needs the channel mutex (in janet_thread_chan_cb)
+ * before it gets back to draining its pipe - so nothing is posted while this thread holds a channel
+ * mutex. Hand-offs made under a mutex are kept here and posted after the last one is released. */
+typedef struct {
+    JanetVM *vm;
+    JanetEVGenericMessage msg;
+} JanetChanPost;
+
+static void janet_thread_chan_cb(JanetEVGenericMessage msg);
+
+static void janet_chan_post(JanetVM *vm, JanetEVGenericMessage msg) {
+    if (janet_vm.chan_lock_depth > 0) {
+        JanetChanPost post;
+        post.vm = vm;
+        post.msg = msg;
+        if (janet_q_push(&janet_vm.chan_outbox, &post, sizeof(post))) {
+            JANET_OUT_OF_MEMORY;
+        }
+    } else {
+        janet_ev_post_event(vm, janet_thread_chan_cb, msg);
+    }
 }
 
 static void janet_chan_unlock(JanetChannel *chan) {
     if (!janet_chan_is_threaded(chan)) return;
     janet_os_mutex_unlock((JanetOSMutex *) &chan->lock);
+    if (--janet_vm.chan_lock_depth == 0) {
+        JanetChanPost post;
+        while (!janet_q_pop(&janet_vm.chan_outbox, &post, sizeof(post))) {
+            janet_ev_post_event(post.vm, janet_thread_chan_cb, post.msg);
+        }
+    }
 }
 
 static void janet_chan_deinit(JanetChannel *chan) {
@@ -965,7 +999,7 @@ static void janet_thread_chan_cb(JanetEVGenericMessage msg) {
                 msg.argi = (int32_t) reader.sched_id;
                 msg.argp = channel;
                 msg.argj = x;
-                janet_ev_post_event(vm, janet_thread_chan_cb, msg);
+                janet_chan_post(vm, msg);
             } else {
                 /* Nobody else is waiting: the value was taken out of the channel for a reader that is
                  * gone, so put it back where it came from (still packed) instead of dropping it. */
@@ -981,7 +1015,7 @@ static void janet_thread_chan_cb(JanetEVGenericMessage msg) {
                 msg.argi = (int32_t) writer.sched_id;
                 msg.argp = channel;
                 msg.argj = janet_wrap_nil();
-                janet_ev_post_event(vm, janet_thread_chan_cb, msg);
+                janet_chan_post(vm, msg);
             }
         }
     }
@@ -1045,7 +1079,7 @@ static int janet_channel_push_with_lock(JanetChannel *channel, Janet x, int mode
             msg.argi = (int32_t) reader.sched_id;
             msg.argp = channel;
             msg.argj = x;
-            janet_ev_post_event(vm, janet_thread_chan_cb, msg);
+            janet_chan_post(vm, msg);
         } else {
             if (reader.mode == JANET_CP_MODE_CHOICE_READ) {
                 janet_schedule(reader.fiber, make_read_result(channel, x));
@@ -1116,7 +1150,7 @@ static int janet_channel_pop_with_lock(JanetChannel *channel, Janet *item, int i
             msg.argi = (int32_t) writer.sched_id;
             msg.argp = channel;
             msg.argj = janet_wrap_nil();
-            janet_ev_post_event(vm, janet_thread_chan_cb, msg);
+            janet_chan_post(vm, msg);
         } else {
             if (writer.mode == JANET_CP_MODE_CHOICE_WRITE) {
                 janet_schedule(writer.fiber, make_write_result(channel));
@@ -1411,7 +1445,7 @@ JANET_CORE_FN(cfun_channel_close,
                 msg.tag = JANET_CP_MODE_CLOSE;
                 msg.argi = (int32_t) writer.sched_id;
                 msg.argj = janet_wrap_nil();
-                janet_ev_post_event(vm, janet_thread_chan_cb, msg);
+                janet_chan_post(vm, msg);
             } else {
                 /* A waiter on a threaded channel was rooted when it was queued (see janet_thread_chan_cb) */
                 if (janet_chan_is_threaded(channel)) janet_gcunroot(janet_wrap_fiber(writer.fiber));
@@ -1434,7 +1468,7 @@ JANET_CORE_FN(cfun_channel_close,
                 msg.tag = JANET_CP_MODE_CLOSE;
                 msg.argi = (int32_t) reader.sched_id;
                 msg.argj = janet_wrap_nil();
-                janet_ev_post_event(vm, janet_thread_chan_cb, msg);
+                janet_chan_post(vm, msg);
             } else {
                 if (janet_chan_is_threaded(channel)) janet_gcunroot(janet_wrap_fiber(reader.fiber));
                 if (janet_fiber_can_resume(reader.fiber) && reader.sched_id == reader.fiber->sched_id) {
